@@ -63,6 +63,7 @@ def run(m: Model, r: Report, tier: str) -> None:
     r.rule("R5", "stored configs re-create the run: non-JSON-native field types have serialisers; the dump is unfiltered", floor=5)
     r.rule("R6", "invalid values from file / env are reported with their source", floor=1)
     r.rule("R7", "a present but falsy file / env value (false, 0, '') counts as set", floor=3)
+    r.rule("R8", "the per-option metadata (config section, positional, short name) that the env / file lookup keys on survives pydantic's model construction", floor=1)
 
     # ---------------------------------------------------------------- R1
     cp = m.require_function(f"{CLI}._create_parser_from_command")
@@ -265,5 +266,31 @@ def run(m: Model, r: Report, tier: str) -> None:
     r.check("f'{source} ({INFO.config_section}:{NAME})'" in m.mtext(fc, None, rc) and "f'environment variable ({KEY})'" in m.mtext(fe, None, re_), "R6",
             f"{gb.qualname}#source-labels", "each extra default must carry a label of its source", loc=gb.loc)
 
-    r.assumptions += ["argparse: explicit command-line values override parser defaults; pydantic validation semantics"]
+    # ---------------------------------------------------------------- R8
+    cfgm = m.module(CFG)
+    aliases = {k for k, v in cfgm.assigns.items() if ast.unparse(v).startswith(("Annotated[", "_TrickType("))}
+    if len(aliases) < 5:
+        raise AnalysisError(f"{CFG}: Annotated aliases (AutoInt, HexBytes, Idempotent, ...) not found")
+    affected = []
+    n_fields = 0
+    for c in m.subclasses(gb):
+        for fname, ann in c.class_annots.items():
+            dflt = c.class_attrs.get(fname)
+            if not (isinstance(dflt, ast.Call) and ast.unparse(dflt.func) == "Field"):
+                continue
+            n_fields += 1
+            top = ann.value if isinstance(ann, ast.Subscript) else ann
+            if ast.unparse(top).split(".")[-1] in aliases:
+                affected.append(f"{c.name}.{fname}: {ast.unparse(ann)}")
+    if n_fields < 100:
+        raise AnalysisError(f"only {n_fields} option fields found")
+    lookups_by_class = all(m.mtext(f_, None, ro_).count("isinstance(INFO, ConfigArgFieldInfo)") >= 1 for f_, ro_ in ((fc, rc), (fe, re_)))
+    r.check(not (affected and lookups_by_class), "R8", f"{gb.qualname}#annotated-alias-fields",
+            f"{len(affected)} of {n_fields} options are annotated with a bare Annotated alias and get their metadata from Field(...) (e.g. {affected[:4]}): pydantic merges the alias' "
+            "metadata with the default into a new plain FieldInfo, so `isinstance(info, ConfigArgFieldInfo)` is False for them in cls.model_fields and their GALLIA_<NAME> variable "
+            "and gallia.toml entry are never looked up (options typed `X | None` keep the subclass)", loc=gb.loc)
+
+    r.assumptions += ["argparse: explicit command-line values override parser defaults; pydantic validation semantics",
+                      "pydantic (observed with the installed 2.13.5): a field whose annotation is an Annotated alias and whose default is a FieldInfo subclass instance is stored in "
+                      "model_fields as a plain FieldInfo (merge_field_infos)"]
     r.not_decided += ["per-option precedence for all 16 source combinations (pydantic / argparse runtime)"]
